@@ -47,7 +47,18 @@ func rootGlobal(v ssa.Value) *ssa.Global {
 	}
 }
 
+var pkgInitFast sync.Map
+
 func initInfo(p *ssa.Package) *pkgInit {
+	if pi, ok := pkgInitFast.Load(p); ok {
+		return pi.(*pkgInit)
+	}
+	pi := initInfo1(p)
+	pkgInitFast.Store(p, pi)
+	return pi
+}
+
+func initInfo1(p *ssa.Package) *pkgInit {
 	pkgInitMu.Lock()
 	defer pkgInitMu.Unlock()
 	if pi, ok := pkgInitCache[p]; ok {
@@ -128,7 +139,7 @@ func (c *Ctx) initFrame(p *ssa.Package, pi *pkgInit) *frame {
 		return fr
 	}
 	info := infoOf(pi.fn)
-	fr := &frame{fn: pi.fn, info: info, env: make([]Value, info.n), isInit: true}
+	fr := &frame{fn: pi.fn, info: info, envMap: map[int]Value{}, isInit: true}
 	c.initFr[p] = fr
 	return fr
 }
@@ -166,6 +177,9 @@ func (c *Ctx) runSegment(p *ssa.Package, pi *pkgInit, seg *segment) {
 		c.steps++
 		if c.steps > c.Ex.MaxSteps {
 			c.abort("budget", "step budget exceeded in init")
+		}
+		if StepProfile != nil {
+			StepProfile["<init> "+p.Pkg.Path()]++
 		}
 		k := c.visit(fr, in)
 		if in == seg.end {
